@@ -288,3 +288,95 @@ Proof.
     rewrite E. apply ssum_map_mul.
 Qed.
 Local Open Scope Z_scope.
+
+(* ------------------------------------------------------------------ *)
+(** * Model addresses (Z) and specification addresses (nat) are the same *)
+
+Definition szs_of (fl : list wfield) : list nat := map (fun f => Z.to_nat (w_esize f)) fl.
+Definition rlN_of (rl : list Z) : list nat := map Z.to_nat rl.
+Definition ss_of (fl : list wfield) (rl : list Z) : list nat := map (fun i => nth i (szs_of fl) 0%nat) (rlN_of rl).
+
+Lemma saddr_addrN : forall fu R n off s I k j w b, j * w + b = Z.of_nat k ->
+  saddr (mkside fu 0 (Z.of_nat R)) (Z.of_nat n) (Z.of_nat off) (Z.of_nat s) j w (Z.of_nat I) b = Z.of_nat (addrN fu R n off s I k).
+Proof.
+  intros fu R n off s I k j w b H. unfold saddr, sbase, sstride, addrN. cbn [sd_full sd_base sd_tot].
+  destruct fu; rewrite !Nat2Z.inj_add, !Nat2Z.inj_mul; lia.
+Qed.
+
+Lemma esize_nonneg : forall f, fld_ok f -> 0 <= w_esize f.
+Proof. intros f Hf. field_facts f Hf. nia. Qed.
+
+Lemma ssum_szs : forall fl, Forall fld_ok fl -> Z.of_nat (ssum (szs_of fl)) = isum fl.
+Proof.
+  induction 1 as [|f t Hf Ht IH]; [reflexivity|].
+  unfold szs_of in *. cbn [map]. change (ssum (Z.to_nat (w_esize f) :: map (fun f0 => Z.to_nat (w_esize f0)) t)) with
+    (Z.to_nat (w_esize f) + ssum (map (fun f0 => Z.to_nat (w_esize f0)) t))%nat.
+  rewrite Nat2Z.inj_add, IH, Z2Nat.id by (apply esize_nonneg; exact Hf).
+  cbn [isum fold_right]. fold (isum t). field_facts f Hf. lia.
+Qed.
+
+Lemma nthf_nth : forall fl z f, nthf fl z = Some f -> 0 <= z /\ (Z.to_nat z < length fl)%nat /\ nth (Z.to_nat z) fl f = f.
+Proof.
+  intros fl z f H. unfold nthf in H. destruct (z <? 0) eqn:E; [discriminate|]. apply Z.ltb_ge in E.
+  split; [exact E|]. split; [apply nth_error_Some; congruence|]. apply nth_error_nth. exact H.
+Qed.
+
+Lemma szs_nth : forall fl z f, nthf fl z = Some f -> nth (Z.to_nat z) (szs_of fl) 0%nat = Z.to_nat (w_esize f).
+Proof.
+  intros fl z f H. destruct (nthf_nth fl z f H) as [_ [Hlt Hn]]. unfold szs_of.
+  rewrite (nth_indep _ 0%nat (Z.to_nat (w_esize f))) by (rewrite map_length; exact Hlt).
+  rewrite (map_nth (fun f0 => Z.to_nat (w_esize f0))). rewrite Hn. reflexivity.
+Qed.
+
+(** the p-th selected field and its offset in the reader's record *)
+Lemma roffs_at : forall rl fl uo p, Forall fld_ok fl -> rl_ok fl rl -> (p < length rl)%nat ->
+  exists f, nthf fl (nth p rl 0) = Some f /\
+            In (f, uo + Z.of_nat (ssum (firstn p (ss_of fl rl)))) (roffs fl rl uo) /\
+            nth p (ss_of fl rl) 0%nat = Z.to_nat (w_esize f).
+Proof.
+  induction rl as [|i t IH]; intros fl uo p Hok Hrl Hp; [cbn in Hp; lia|].
+  inversion Hrl as [|? ? [f0 Hf0] Ht]; subst.
+  assert (Hfo : fld_ok f0) by (rewrite Forall_forall in Hok; apply Hok; eapply nthf_in; eassumption).
+  destruct p as [|p].
+  - exists f0. cbn [nth roffs firstn]. rewrite Hf0. split; [reflexivity|]. split.
+    + left. f_equal. cbn. lia.
+    + unfold ss_of, rlN_of. cbn [map nth]. apply szs_nth. exact Hf0.
+  - destruct (IH fl (uo + w_esize f0) p Hok Ht ltac:(cbn in Hp; lia)) as [f [H1 [H2 H3]]].
+    exists f. cbn [nth roffs]. rewrite Hf0. split; [exact H1|]. split.
+    + right. unfold ss_of, rlN_of in *. cbn [map firstn].
+      change (ssum (nth (Z.to_nat i) (szs_of fl) 0%nat :: firstn p (map (fun i0 => nth i0 (szs_of fl) 0%nat) (map Z.to_nat t))))
+        with (nth (Z.to_nat i) (szs_of fl) 0%nat + ssum (firstn p (map (fun i0 => nth i0 (szs_of fl) 0%nat) (map Z.to_nat t))))%nat.
+      rewrite (szs_nth fl i f0 Hf0), Nat2Z.inj_add, Z2Nat.id by (apply esize_nonneg; exact Hfo).
+      replace (uo + (w_esize f0 + Z.of_nat (ssum (firstn p (map (fun i0 => nth i0 (szs_of fl) 0%nat) (map Z.to_nat t))))))
+        with (uo + w_esize f0 + Z.of_nat (ssum (firstn p (map (fun i0 => nth i0 (szs_of fl) 0%nat) (map Z.to_nat t))))) by ring.
+      exact H2.
+    + unfold ss_of, rlN_of in *. cbn [map nth]. exact H3.
+Qed.
+
+Lemma ssum_ss : forall rl fl, Forall fld_ok fl -> rl_ok fl rl -> Z.of_nat (ssum (ss_of fl rl)) = rsum fl rl.
+Proof.
+  induction rl as [|i t IH]; intros fl Hok Hrl; [reflexivity|].
+  inversion Hrl as [|? ? [f0 Hf0] Ht]; subst.
+  assert (Hfo : fld_ok f0) by (rewrite Forall_forall in Hok; apply Hok; eapply nthf_in; eassumption).
+  unfold ss_of, rlN_of in *. cbn [map rsum]. rewrite Hf0.
+  change (ssum (nth (Z.to_nat i) (szs_of fl) 0%nat :: map (fun i0 => nth i0 (szs_of fl) 0%nat) (map Z.to_nat t)))
+    with (nth (Z.to_nat i) (szs_of fl) 0%nat + ssum (map (fun i0 => nth i0 (szs_of fl) 0%nat) (map Z.to_nat t)))%nat.
+  rewrite Nat2Z.inj_add, (IH fl Hok Ht), (szs_nth fl i f0 Hf0), Z2Nat.id by (apply esize_nonneg; exact Hfo). reflexivity.
+Qed.
+
+(** the i-th field of the schema and its offset in the writer's record *)
+Lemma foffs_at : forall fl uo i d, Forall fld_ok fl -> (i < length fl)%nat ->
+  In (nth i fl d, uo + Z.of_nat (ssum (firstn i (szs_of fl)))) (foffs uo fl).
+Proof.
+  induction fl as [|f0 t IH]; intros uo i d Hok Hi; [cbn in Hi; lia|].
+  inversion Hok as [|? ? Hf0 Ht]; subst.
+  destruct i as [|i].
+  - left. cbn. f_equal. lia.
+  - right. cbn [nth foffs]. unfold szs_of in *. cbn [map firstn].
+    change (ssum (Z.to_nat (w_esize f0) :: firstn i (map (fun f => Z.to_nat (w_esize f)) t)))
+      with (Z.to_nat (w_esize f0) + ssum (firstn i (map (fun f => Z.to_nat (w_esize f)) t)))%nat.
+    rewrite Nat2Z.inj_add, Z2Nat.id by (apply esize_nonneg; exact Hf0).
+    replace (uo + (w_esize f0 + Z.of_nat (ssum (firstn i (map (fun f => Z.to_nat (w_esize f)) t)))))
+      with (uo + w_esize f0 + Z.of_nat (ssum (firstn i (map (fun f => Z.to_nat (w_esize f)) t)))) by ring.
+    apply IH; [exact Ht|cbn in Hi; lia].
+Qed.
